@@ -625,11 +625,14 @@ func configAddressChains(c *Ctx, flags map[string]*cliFlag) {
 		}
 		return exprStr(e)
 	}
-	// collect, per address, the guarded rewrites  if G { A = V }  (else-if chains included)
+	// collect, per address, the guarded rewrites  if G { A = V }  in source order; a rewrite in an
+	// else-if branch is guarded by the negation of the earlier guards of its chain as well (the
+	// order of the rewrites and their mutual exclusion are part of the normalisation: "none" is only
+	// mapped to "" when the deprecated port form did not apply)
 	collect := func(fn *FuncInfo, addr func(e ast.Expr) string) map[string][]string {
 		out := map[string][]string{}
-		var visitIf func(is *ast.IfStmt, neg []string)
-		visitIf = func(is *ast.IfStmt, neg []string) {
+		var visitIf func(is *ast.IfStmt, neg []ast.Expr)
+		visitIf = func(is *ast.IfStmt, neg []ast.Expr) {
 			for _, st := range is.Body.List {
 				if as, ok := st.(*ast.AssignStmt); ok && len(as.Lhs) == 1 && len(as.Rhs) == 1 {
 					if a := addr(as.Lhs[0]); a != "" {
@@ -638,12 +641,15 @@ func configAddressChains(c *Ctx, flags map[string]*cliFlag) {
 							varName = t
 						}
 						g := norm(is.Cond, varName)
+						for i := len(neg) - 1; i >= 0; i-- {
+							g = "!" + norm(neg[i], varName) + " && " + g
+						}
 						out[a] = append(out[a], g+" => $A="+norm(as.Rhs[0], varName))
 					}
 				}
 			}
 			if el, ok := is.Else.(*ast.IfStmt); ok {
-				visitIf(el, neg)
+				visitIf(el, append(append([]ast.Expr{}, neg...), is.Cond))
 			}
 		}
 		for _, st := range fn.Decl.Body.List {
@@ -651,19 +657,48 @@ func configAddressChains(c *Ctx, flags map[string]*cliFlag) {
 				visitIf(is, nil)
 			}
 		}
-		for k := range out {
-			sort.Strings(out[k])
-		}
 		return out
 	}
+	// the locals of get that end up in the three address fields: argument i of newFromArgs is the
+	// local, parameter i of newFromArgs is stored in the Config field with that yaml tag
+	flagLocal := map[types.Object]string{}
+	if nfa := c.P.Func("config.newFromArgs"); nfa != nil {
+		paramTag := map[types.Object]string{}
+		ast.Inspect(nfa.Decl.Body, func(n ast.Node) bool {
+			if kv, ok := n.(*ast.KeyValueExpr); ok {
+				if k, ok := kv.Key.(*ast.Ident); ok {
+					if f, ok := info.Uses[k].(*types.Var); ok && f.IsField() {
+						if cfg := getFn.Pkg.Types.Scope().Lookup("Config"); cfg != nil {
+							for tag, ff := range yamlFields(cfg.Type()) {
+								if ff == f {
+									if o := identObj(info, kv.Value); o != nil {
+										paramTag[o] = tag
+									}
+								}
+							}
+						}
+					}
+				}
+			}
+			return true
+		})
+		for _, call := range callsIn(getFn.Decl.Body, false) {
+			if calleeKey(info, call) == "config.newFromArgs" {
+				for i, a := range call.Args {
+					if o := identObj(info, a); o != nil {
+						if t := paramTag[paramObj(nfa, i)]; t != "" {
+							flagLocal[o] = t
+						}
+					}
+				}
+			}
+		}
+	}
 	flagAddr := func(e ast.Expr) string {
-		switch exprStr(e) {
-		case "httpAddress":
-			return "http_address"
-		case "grpcAddress":
-			return "grpc_address"
-		case "profileAddress":
-			return "profile_address"
+		if o := identObj(info, e); o != nil {
+			if t := flagLocal[o]; t == "http_address" || t == "grpc_address" || t == "profile_address" {
+				return t
+			}
 		}
 		return ""
 	}
@@ -680,10 +715,6 @@ func configAddressChains(c *Ctx, flags map[string]*cliFlag) {
 	for _, a := range []string{"http_address", "grpc_address", "profile_address"} {
 		g := strings.Join(gc[a], " ; ")
 		y := strings.Join(yc[a], " ; ")
-		// rename the flag-side local to $A
-		for _, v := range []string{"httpAddress", "grpcAddress", "profileAddress"} {
-			g = strings.ReplaceAll(g, v, "$A")
-		}
 		R.Check(g == y && g != "", "R19g", c.Cfg+"address:"+a, c.P.Pos(getFn.Decl.Pos()), "the flag and the YAML front end apply the same guarded rewrites to "+a+": "+g,
 			fmt.Sprintf("normalisation of %s differs: flags: [%s]  yaml: [%s]", a, g, y))
 	}
